@@ -30,6 +30,7 @@ package main
 
 import (
 	"encoding/json"
+	"errors"
 	"fmt"
 	"os"
 	"path/filepath"
@@ -38,6 +39,7 @@ import (
 	"strings"
 
 	"github.com/openconfig/goyang/pkg/yang"
+	"github.com/openconfig/goyang/pkg/yangentry"
 	"verif/harness/gen"
 	"verif/harness/lib"
 	"verif/harness/rescorr"
@@ -79,6 +81,27 @@ var posRe = regexp.MustCompile(`^(\S+?):(\d+):(\d+): `)
 
 // starts collects the positions of all statements of a text, and the positions by marker key.
 func starts(name, text string) (map[string]bool, map[string][]string) {
+	ck := name + "\x00" + text
+	if e, ok := startsCache[ck]; ok {
+		return e.pos, e.byKey
+	}
+	pos, byKey := starts1(name, text)
+	if len(startsCache) > 64 {
+		startsCache = map[string]startsEntry{}
+	}
+	startsCache[ck] = startsEntry{pos, byKey}
+	return pos, byKey
+}
+
+type startsEntry struct {
+	pos   map[string]bool
+	byKey map[string][]string
+}
+
+// (the same text is looked at by every mode of loading)
+var startsCache = map[string]startsEntry{}
+
+func starts1(name, text string) (map[string]bool, map[string][]string) {
 	pos := map[string]bool{}
 	byKey := map[string][]string{}
 	ss, err := yang.Parse(text, name)
@@ -126,9 +149,57 @@ type verdict struct {
 	NoError   bool
 	ParseFail bool
 	errs      []error
+	// StmtDiff: a loaded module holds a statement whose Location() is not the position of a
+	// statement of the text it was loaded from (or lacks one).
+	StmtDiff string
+	// Loaded: indices of the texts that ended up loaded (files-on-disk modes).
+	Loaded []int
 }
 
-func run(c tcase) (v verdict, crashed string) {
+// How a set is handed to goyang.
+const (
+	inMemory  = iota // Modules.Parse(text, name) for every text
+	readPaths        // every text written to a fresh directory, Modules.Read(<dir>/<name>) for each
+	readRoots        // AddPath(dir), Modules.Read(<module name>) for some roots, Process loads what they import / include
+	viaEntry         // yangentry.Parse(<paths>, [dir])
+)
+
+var modeName = []string{"Modules.Parse", "Modules.Read(path)", "AddPath + Read(name) of roots + auto-loading", "yangentry.Parse"}
+
+func run(c tcase) (verdict, string) { return runMode(c, inMemory, nil) }
+
+// stmtLocs collects Location() of every statement of the loaded (sub)modules, per file.
+func stmtLocs(ms *yang.Modules, strip func(string) string) map[string]map[string]bool {
+	out := map[string]map[string]bool{}
+	seen := map[*yang.Module]bool{}
+	var walk func(file string, s *yang.Statement)
+	walk = func(file string, s *yang.Statement) {
+		out[file][strip(s.Location())] = true
+		for _, c := range s.SubStatements() {
+			walk(file, c)
+		}
+	}
+	for _, mm := range []map[string]*yang.Module{ms.Modules, ms.SubModules} {
+		for _, m := range mm {
+			if m == nil || seen[m] || m.Statement() == nil {
+				continue
+			}
+			seen[m] = true
+			loc := strip(m.Statement().Location())
+			file := loc
+			if mt := posRe.FindStringSubmatch(loc + ": "); mt != nil {
+				file = mt[1]
+			}
+			if out[file] == nil {
+				out[file] = map[string]bool{}
+			}
+			walk(file, m.Statement())
+		}
+	}
+	return out
+}
+
+func runMode(c tcase, mode int, roots []int) (v verdict, crashed string) {
 	defer func() {
 		if r := recover(); r != nil {
 			crashed = fmt.Sprint(r)
@@ -159,17 +230,88 @@ func run(c tcase) (v verdict, crashed string) {
 			}
 		}
 	}
+	perFile := map[string]map[string]bool{}
+	for i := range c.Names {
+		perFile[c.Names[i]], _ = starts(c.Names[i], c.Texts[i])
+	}
 	ms := yang.NewModules()
 	var errs []error
-	for i := range c.Names {
-		if err := ms.Parse(c.Texts[i], c.Names[i]); err != nil {
-			errs = append(errs, err)
+	strip := func(s string) string { return s }
+	if mode == inMemory {
+		for i := range c.Names {
+			if err := ms.Parse(c.Texts[i], c.Names[i]); err != nil {
+				errs = append(errs, err)
+			}
+		}
+	} else {
+		dir, err := os.MkdirTemp("", "c16sem")
+		if err != nil {
+			lib.Fatal("tempdir: %v", err)
+		}
+		defer os.RemoveAll(dir)
+		dir, _ = filepath.EvalSymlinks(dir)
+		for i := range c.Names {
+			if err := os.WriteFile(filepath.Join(dir, c.Names[i]), []byte(c.Texts[i]), 0o644); err != nil {
+				lib.Fatal("write: %v", err)
+			}
+		}
+		// files are known to goyang under their path: positions are compared under the bare name
+		strip = func(s string) string { return strings.ReplaceAll(s, dir+string(filepath.Separator), "") }
+		switch mode {
+		case readPaths:
+			for i := range c.Names {
+				if err := ms.Read(filepath.Join(dir, c.Names[i])); err != nil {
+					errs = append(errs, err)
+				}
+			}
+		case readRoots:
+			ms.AddPath(dir)
+			for _, i := range roots {
+				if err := ms.Read(strings.TrimSuffix(c.Names[i], ".yang")); err != nil {
+					errs = append(errs, err)
+				}
+			}
+		case viaEntry:
+			var paths []string
+			for i := range c.Names {
+				paths = append(paths, filepath.Join(dir, c.Names[i]))
+			}
+			_, errs = yangentry.Parse(paths, []string{dir})
+			ms = nil
 		}
 	}
-	if len(errs) == 0 {
-		errs = ms.Process()
-	} else {
-		v.ParseFail = true
+	if ms != nil {
+		if len(errs) == 0 {
+			errs = ms.Process()
+		} else {
+			v.ParseFail = true
+		}
+		// every statement of every loaded (sub)module reports a position of the text it came from,
+		// and every statement of that text is there
+		idx := map[string]int{}
+		for i, n := range c.Names {
+			idx[n] = i
+		}
+		for file, locs := range stmtLocs(ms, strip) {
+			if i, ok := idx[file]; ok {
+				v.Loaded = append(v.Loaded, i)
+			}
+			want := perFile[file]
+			for l := range locs {
+				if !want[l] && v.StmtDiff == "" {
+					v.StmtDiff = fmt.Sprintf("a statement of the module loaded from %s reports %s, which is not the start of a statement of that file", file, l)
+				}
+			}
+			for l := range want {
+				if !locs[l] && v.StmtDiff == "" {
+					v.StmtDiff = fmt.Sprintf("no statement of the module loaded from %s reports %s, where a statement of that file starts", file, l)
+				}
+			}
+		}
+		sort.Ints(v.Loaded)
+	}
+	for i, e := range errs {
+		errs[i] = errors.New(strip(e.Error()))
 	}
 	v.errs = errs
 	v.NoError = len(errs) == 0
@@ -886,6 +1028,104 @@ func inject(r interface{ Intn(int) int }, set *gen.Set, fl fault, seq int) *tcas
 	return x.c
 }
 
+// Leading layout put before the first statement of a file: blank lines, blanks and tabs, comments,
+// CR LF line ends.  The positions expected are those in the text as written.
+var leadings = []string{"", "", "\n", "\n\n\n", "  ", "\t", " \t ", "\n   ", "\n\n\t", "// leading comment\n",
+	"/* block\n   comment */\n  ", "\r\n\r\n", "\r\n  ", " \n \n ", "/* c */ ", "\n\n// c\n\n    "}
+
+// layout returns the texts with a leading layout each (and now and then CR LF line ends throughout).
+func layout(r interface{ Intn(int) int }, texts []string) []string {
+	out := make([]string, len(texts))
+	for i, t := range texts {
+		if r.Intn(6) == 0 {
+			t = strings.ReplaceAll(t, "\n", "\r\n")
+		}
+		out[i] = leadings[r.Intn(len(leadings))] + t
+	}
+	return out
+}
+
+// errSet is the canonical set of error records (file:line:col:class) of a run.
+func errSet(v verdict) string { return strings.Join(eRecords(lib.CanonErrs(v.errs)), "\n") }
+
+// fileModes runs the set through the files-on-disk ways of loading and returns what differs from
+// loading the same bytes with Modules.Parse (v0), "" when nothing does.
+func fileModes(r interface{ Intn(int) int }, c tcase, v0 verdict, count func(string)) string {
+	// (a) Modules.Read of every file, (c) yangentry.Parse: the same outcome, positions included
+	for _, mode := range []int{readPaths, viaEntry} {
+		v, crash := runMode(c, mode, nil)
+		switch {
+		case crash != "":
+			return modeName[mode] + ": goyang panicked: " + crash
+		case v.StmtDiff != "":
+			return modeName[mode] + ": " + v.StmtDiff
+		case errSet(v) != errSet(v0):
+			return fmt.Sprintf("%s reports %q where Modules.Parse of the same bytes reports %q", modeName[mode], v.Errors, v0.Errors)
+		}
+		if mode == readPaths {
+			if why := judge(c, v); why != "" {
+				return modeName[mode] + ": " + why
+			}
+		}
+		count(modeName[mode])
+	}
+	// (b) some roots by name, the rest through the search path while processing; compared with
+	// Modules.Parse of exactly the texts that ended up loaded
+	if v0.ParseFail {
+		return ""
+	}
+	// (roots are modules: what a lone submodule drags in, and when, is a matter of load order)
+	var roots, mods []int
+	for i := range c.Names {
+		if _, bk := starts(c.Names[i], c.Texts[i]); len(bk["kw:submodule"]) == 0 {
+			mods = append(mods, i)
+			if r.Intn(2) == 0 {
+				roots = append(roots, i)
+			}
+		}
+	}
+	if len(mods) == 0 {
+		return ""
+	}
+	if len(roots) == 0 {
+		roots = []int{mods[r.Intn(len(mods))]}
+	}
+	v, crash := runMode(c, readRoots, roots)
+	if crash != "" {
+		return modeName[readRoots] + ": goyang panicked: " + crash
+	}
+	if v.StmtDiff != "" {
+		return modeName[readRoots] + ": " + v.StmtDiff
+	}
+	if v.Stray != "" {
+		return modeName[readRoots] + ": an error names a position that is not the start of a statement of that file: " + v.Stray
+	}
+	sub := tcase{}
+	isRoot := map[int]bool{}
+	for _, i := range roots {
+		isRoot[i] = true
+		sub.Names, sub.Texts = append(sub.Names, c.Names[i]), append(sub.Texts, c.Texts[i])
+	}
+	for _, i := range v.Loaded {
+		if !isRoot[i] {
+			sub.Names, sub.Texts = append(sub.Names, c.Names[i]), append(sub.Texts, c.Texts[i])
+		}
+	}
+	if len(v.Loaded) > len(roots) {
+		count("auto-loaded files")
+	}
+	vm, crash := run(sub)
+	if crash != "" {
+		return "Modules.Parse of the loaded subset: goyang panicked: " + crash
+	}
+	// a module that is looked for and not found is an error of its own in this mode only
+	if errSet(v) != errSet(vm) && !strings.Contains(errSet(v), "no-such-") {
+		return fmt.Sprintf("%s (roots %v, loaded %v) reports %q where Modules.Parse of the loaded texts reports %q", modeName[readRoots], roots, v.Loaded, v.Errors, vm.Errors)
+	}
+	count(modeName[readRoots])
+	return ""
+}
+
 func eRecords(dump []string) []string {
 	var out []string
 	for _, r := range dump {
@@ -927,6 +1167,20 @@ func main() {
 	if !strings.HasPrefix(filepath.Base(f.Driver), "drv_res") {
 		f.Driver = ""
 	}
+	// the files-on-disk modes search "." first: work in an empty directory
+	for _, p := range []*string{&f.Out, &f.Replay, &f.Driver} {
+		if *p != "" {
+			if a, err := filepath.Abs(*p); err == nil {
+				*p = a
+			}
+		}
+	}
+	cleanup := func() {}
+	if cwd, err := os.MkdirTemp("", "c16semcwd"); err == nil {
+		cleanup = func() { os.Chdir(os.TempDir()); os.RemoveAll(cwd) }
+		defer cleanup()
+		os.Chdir(cwd)
+	}
 	if f.Replay != "" {
 		raw, _ := os.ReadFile(f.Replay)
 		var p struct {
@@ -944,6 +1198,12 @@ func main() {
 		fmt.Printf("fault: %s key %s class %s\nexpected position: %v\nerrors: %q\nerror positions: %v\nverdict: %q crash: %q\n",
 			c.Fault, c.key(), c.Class, v.Expected, v.Errors, v.At, why, crash)
 		bad := crash != "" || why != ""
+		if crash == "" {
+			if fw := fileModes(f.Rand(0), c, v, func(string) {}); fw != "" {
+				fmt.Printf("files on disk: %s\n", fw)
+				bad = true
+			}
+		}
 		if f.Driver != "" && !v.ParseFail && crash == "" {
 			if req := rescorr.Request(rescorr.Case{Names: c.Names, Texts: c.Texts}); req != "" {
 				ans, err := lib.ParBatch(f.Driver, []string{req}, 1)
@@ -957,6 +1217,7 @@ func main() {
 			}
 		}
 		if bad {
+			cleanup()
 			os.Exit(1)
 		}
 		return
@@ -1005,6 +1266,7 @@ func main() {
 			c = &tcase{Names: names, Texts: texts}
 			unfaulted++
 		}
+		c.Texts = layout(r, c.Texts)
 		v, crash := run(*c)
 		if crash != "" {
 			res.AddDisagreement(lib.Disagreement{Kind: "crash", Input: c, Go: crash, SpecVerdict: "violates", What: "goyang panicked: " + crash, Replay: c})
@@ -1012,6 +1274,15 @@ func main() {
 		}
 		if why := judge(*c, v); why != "" {
 			res.AddDisagreement(lib.Disagreement{Kind: "spec", Input: c, Go: v.Errors, SpecVerdict: "violates", What: why, Replay: c})
+		} else if v.StmtDiff != "" {
+			res.AddDisagreement(lib.Disagreement{Kind: "spec", Input: c, Go: v.Errors, SpecVerdict: "violates", What: "Modules.Parse: " + v.StmtDiff, Replay: c})
+		}
+		// the same bytes as files on disk (every third set: four more runs each): same statement
+		// positions, same errors, same positions
+		if i%3 == 0 {
+			if fw := fileModes(r, *c, v, func(k string) { res.Count("loaded via "+k, 1) }); fw != "" {
+				res.AddDisagreement(lib.Disagreement{Kind: "spec", Input: c, Go: v.Errors, SpecVerdict: "violates", What: "files on disk: " + fw, Replay: c})
+			}
 		}
 		if f.Driver != "" && !v.ParseFail {
 			if req := rescorr.Request(rescorr.Case{Names: c.Names, Texts: c.Texts}); req != "" {
